@@ -102,7 +102,9 @@ def case(ctx, rng, idx, state):
         # (1) permutation (incl. ones that separate the co-centred groups)
         perm = rng.permutation(nw)
         s1 = copy.deepcopy(system)   # keeps the history-dependent internal state (a rebuilt system would not)
+        monitors.warm_caches(s1)
         s1.reorder(perm)
+        monitors.assert_no_stale_caches(ctx, s1, "reorder", dict(base, perm=perm))
         r1, e1 = observe(s1)
         compare("reorder", r0, e0, r1, e1, dict(base, perm=perm))
         ctx.count("reorder_cases")
@@ -135,7 +137,9 @@ def case(ctx, rng, idx, state):
         # (3) spin_block2interlace: a relabelling; and its inverse restores the system
         if nw % 2 == 0:
             s3 = copy.deepcopy(system)
+            monitors.warm_caches(s3)
             s3.spin_block2interlace()
+            monitors.assert_no_stale_caches(ctx, s3, "spin_block2interlace", base)
             r3, e3 = observe(s3)
             compare("spin_block2interlace", r0, e0, r3, e3, base)
             s3.spin_interlace2block()
